@@ -6,6 +6,18 @@ props = [json.loads(l) for l in open(os.path.join(V, 'properties.jsonl'))]
 
 # id -> (level category, technique, level text, level note, design ref)
 CLAIMED = {
+ 'C04': ('exploration', 'property-based testing + enumerated field-value x length grids through the real receive path and every packet view; libFuzzer campaign in the thorough tier',
+         'Structure-aware corruption of genuine responses captured from simulated runs (named length/offset/type fields, truncation) delivered to Channel::recv_probe and into a running Strategy; complete grids of every length/offset field value against every truncation length for 20 configurations; every read accessor / iterator / Debug of all 19 packet views over value x length grids and random buffers. Overflow checks on, panics caught; slices must stay inside the buffer and iterators bounded.',
+         'debug assertions off (as shipped); setters with oversized payloads are caller errors.', 'DESIGN.md 3/C04'),
+ 'C12': ('exploration', 'table-driven property-based testing: RFC field table vs. setter/getter pairs, exhaustive for arguments up to 16 bits',
+         'For 79 fields a table (bit offset, width) written from the RFCs is compared with the effect of each setter on arbitrary pre-existing buffers: exactly the field bits change, to value mod 2^width, at the RFC position; getters agree on mutable and read-only views; construction succeeds iff the buffer has the header size. All values of every setter argument <= 16 bits are enumerated.',
+         'TCP reserved/flags follow the RFC 793/3540 split trippy exposes.', 'DESIGN.md 3/C12'),
+ 'C13': ('exploration', 'differential property-based testing against an independent RFC 1071 implementation; exhaustive Paris sequence sweep through the real Channel',
+         'Random / carry-maximising data of every length 0..1024 and address pairs: codec checksum == reference with the field taken as zero, and the datagram with it inserted sums to 0xFFFF; all 65 536 Paris sequences x families x port pairs dispatched through Channel::send_probe, checksum field == sequence and datagram verifies.',
+         'inputs are at least one transport header long.', 'DESIGN.md 3/C13'),
+ 'C14': ('exploration', 'round-trip property-based testing with an independent RFC 4884/4950 encoder, corruption testing, end-to-end comparison in simulated runs',
+         'Messages built by the independent encoder (all length-attribute values, compliant / legacy, 0..4 objects, MPLS stacks) must be split and converted back exactly; corrupted messages must keep slices inside the message, disjoint, and iterators bounded; in simulated runs ProbeComplete.extensions equals what routers attached, in both parse modes.',
+         'classic messages quoting > 128 octets with length 0 are ambiguous by RFC 4884 5.5: containment only.', 'DESIGN.md 3/C14'),
  'C02': ('exploration', 'property-based testing + enumerated sequence sweep over simulated networks, ground-truth oracle',
          'Generated search over supported cells, packet sizes, tos, patterns and quotation shapes (RFC minimum .. whole datagram, RFC 4884 compliant / legacy extension, remarked TOS, quoted TTL, IP options) judged by the ground truth; plus a sweep in which every sequence number the state machine issues (thorough: the whole issuable range per cell, ~10.6 M probes) must be matched. Negative half: quotations of datagrams never sent must complete nothing.',
          'Paris/Dublin in unprivileged mode excluded as documented-unsupported; NAT checksum rewriting excluded for Paris.', 'DESIGN.md 3/C02'),
